@@ -277,6 +277,17 @@ let c13_read kind zh tys data got =
      | OK (((v, _), _), _) -> "OK " ^ rs hb (flat_enc t v)
      | Err -> "ERR" | Panic -> "PANIC")
 
+let c13_write_eager kind zh tys vals budget =
+  let t = ty_of tys and v = val_of vals in
+  let enc = if kind = "view" then
+      (match from_val zh t v with OK n -> ser_node t n | Err -> Err | Panic -> Panic)
+    else flat_enc t v in
+  match enc with
+  | OK bs ->
+    let (w, ok) = ew_write_all_eager { w_budget = Some (nh budget); w_accepted = []; w_n = N0 } [bs] in
+    Printf.sprintf "err=%s accepted=%s written=%s" (show_bool (not ok)) (hb w.w_accepted) (hn w.w_n)
+  | Err -> "enc=ERR" | Panic -> "enc=PANIC"
+
 let c13_write kind zh tys vals budget =
   let t = ty_of tys and v = val_of vals in
   let enc = if kind = "view" then
@@ -372,6 +383,7 @@ let dispatch set_cfg cur_h cur_zh (op : string) (args : string list) : string =
   | "c13p", [data; chunks; eof; fail; reqs] -> c13_prim data chunks eof fail reqs
   | "c13r", [kind; t; data; got] -> set_cfg "sha"; c13_read kind !cur_zh t data got
   | "c13w", [kind; t; v; budget] -> set_cfg "sha"; c13_write kind !cur_zh t v budget
+  | "c13we", [kind; t; v; budget] -> set_cfg "sha"; c13_write_eager kind !cur_zh t v budget
   | "c20", [t; data] -> set_cfg "sha"; c20 !cur_zh t data
   | "hist", [cfg; t; v; route; ops] ->
     (* cfg "sha!" / "alt!": identity-level history, no comparison with the plain-value machine
